@@ -354,3 +354,73 @@ class InvariantLoop(object):
         if exit_state is not None:
             finals.append(exit_state)
         return finals
+
+
+class EventLoop(object):
+    """Rule for loops whose iterations are *uniform*: each iteration starts from an arbitrary
+    value of the declared loop-carried state (havoc + assumed invariant), handles one fresh item,
+    and its only lasting effects are recorded events (frames dumped, objects yielded, calls of
+    contracted functions) plus the declared loop-carried state.  The body is executed once,
+    symbolically, on all its paths; `check(c, paths)` turns the per-path event lists into
+    obligations ("exactly one write, of this very object, iff ...").  That the per-iteration facts
+    compose sequentially in iteration order is the meta-argument T-LOOP-EVENT (trusted rule)."""
+
+    def __init__(self, name, check, havoc=None, invariant=None, item=None, after=None):
+        self.name = name
+        self.check = check
+        self.havoc = havoc
+        self.invariant = invariant
+        self.item = item
+        self.after = after
+
+    def run(self, interp, node, it, st, fr, ordinal):
+        from .contractlib import Ctx
+        short = fr.qualname.split('.')[-1]
+        pre_events = len(st.events)
+        c0 = Ctx(interp, st, fr)
+        if self.invariant:
+            for nm, f in self.invariant(c0).items():
+                st.oblige('%s/loop%d.inv.%s.init' % (short, ordinal, nm), f, kind='loop')
+        body_st = st.fork()
+        c = Ctx(interp, body_st, fr)
+        if self.havoc:
+            self.havoc(c)
+        if self.invariant:
+            body_st.assume(list(self.invariant(c).values()))
+        after_st = body_st.fork()           # the state when the loop is over (loop-carried state arbitrary within the invariant)
+        if isinstance(node, ast.For):
+            item = self.item(c, it)
+            interp.assign(node.target, body_st.box(item), body_st, fr)
+        else:
+            cond = interp.truth(interp.eval(node.test, body_st, fr), body_st)
+            if cond is not True:
+                body_st.assume_pc(cond)
+                after_st.assume_pc(bnot(cond))
+        entry = body_st.fork()
+        outs = interp.exec_block(node.body, body_st, fr)
+        paths = []
+        finals = []
+        for s in outs:
+            paths.append((s, s.events[pre_events:], s.status))
+        obs = self.check(Ctx(interp, entry, fr), paths) or []
+        for s, nm, f in obs:
+            s.oblige('%s/loop%d.%s' % (short, ordinal, nm), f, kind='loop')
+        for s, ev, status in paths:
+            if status in ('run', 'continue'):
+                if self.invariant:
+                    sc = Ctx(interp, s, fr)
+                    for nm, f in self.invariant(sc).items():
+                        s.oblige('%s/loop%d.inv.%s.preserved' % (short, ordinal, nm), f, kind='loop')
+                continue                    # subsumed by the arbitrary iteration
+            if status == 'break':
+                s.status = 'run'
+                s.events = s.events[:pre_events] + [('loop', ordinal, 'exit-by-break')]
+                finals.append(s)
+            else:
+                finals.append(s)            # return / raise leave the function
+        if isinstance(node, ast.For) or not (isinstance(node.test, ast.Constant) and node.test.value is True):
+            after_st.events = after_st.events[:pre_events] + [('loop', ordinal, 'exhausted')]
+            if self.after:
+                self.after(Ctx(interp, after_st, fr))
+            finals.append(after_st)
+        return finals
